@@ -3,9 +3,32 @@ import z3
 from .core import *
 
 
+def lib_isinstance(e, st, a, kw, n):
+    """isinstance on modelled values against builtin types (python lists and tuples are both VTuple: `list`, `tuple` and `(list, tuple)` accept either)"""
+    import ast as _ast
+    x = a[0]
+    spec = n.args[1]
+    names = [_ast.unparse(t) for t in (spec.elts if isinstance(spec, _ast.Tuple) else [spec])]
+    kinds = set()
+    if isinstance(x, VNum):
+        kinds |= {"int"} if (x.is_int and not getattr(x, "python_float", False)) else {"float"}
+    if isinstance(x, VBool):
+        kinds |= {"bool", "int"}
+    if isinstance(x, VStr):
+        kinds |= {"str"}
+    if isinstance(x, (VTuple, VSeqOf)) or (isinstance(x, VSeq) and x.pylist):
+        kinds |= {"list", "tuple"}
+    if isinstance(x, VDict):
+        kinds |= {"dict"}
+    known = {"int", "float", "str", "list", "tuple", "dict", "bool"}
+    if not set(names) <= known or not kinds:
+        raise Unsupported("isinstance " + _ast.unparse(n))
+    return VBool(z3.BoolVal(bool(kinds & set(names))))
+
+
 def lib_len(e, st, a, kw, n):
     x = a[0]
-    if isinstance(x, (VSeq, VRefSeq)):
+    if isinstance(x, (VSeq, VRefSeq, VSeqOf)):
         return VNum(x.len)
     if isinstance(x, VTuple):
         return VNum(z3.IntVal(len(x.items)))
@@ -173,7 +196,7 @@ def lib_dict(e, st, a, kw, n):
 
 def install(eng):
     eng.lib.update({
-        "len": lib_len, "dict": lib_dict, "list": lib_list, "np.asarray": lib_asarray, "np.array": lib_asarray,
+        "len": lib_len, "isinstance": lib_isinstance, "dict": lib_dict, "list": lib_list, "np.asarray": lib_asarray, "np.array": lib_asarray,
         "float": lib_float, "set": lib_set, "zip": lib_zip, "enumerate": lib_enumerate, "range": lib_range, "np.ones_like": lib_np_ones_like, "np.isscalar": lib_np_isscalar,
         "np.diff": lib_np_diff, "np.all": lib_np_all, "np.any": lib_np_any,
         "np.sort": lib_np_sort, "np.zeros": lib_np_zeros, "np.zeros_like": lib_np_zeros_like,
